@@ -37,22 +37,26 @@ RULE = ("histories of operations on caller-owned objects: decorator objects (22 
         "auto_attribs, on_setattr given as NO_OP / hook / list, slots, these=), attr.ib() objects, "
         "these / make_class attrs / class_body dicts, metadata dicts, validator / converter / hook "
         "lists; definitions = applying a decorator object to a freshly exec'ed class body from a "
-        "catalogue of 47 bodies (plain, annotated-only, mixed unannotated (auto_attribs fallback), own "
+        "catalogue of 53 bodies (plain, annotated-only, mixed unannotated (auto_attribs fallback), own "
         "__hash__/__eq__/__setattr__/__init__, pre/post-init hooks, frozen / hooked / plain / post-init "
         "/ exception bases, converters, validators, field-level hooks, kw_only fields, bad default "
         "order, ClassVar, init=False, metadata, converter WRAPPER closures of one def each - converter "
         "lists / converters.pipe / converters.optional / the harness's own converter factory, whose "
         "members are annotated differently or not at all -, string annotations, class-object "
-        "annotations, subclasses of bases with string annotations) or make_class; and CLASS "
+        "annotations, subclasses of bases with string annotations, eq keys built by cmp_using() calls "
+        "with the SAME function objects / class_name differing in require_same_type, validator / "
+        "converter / hook TUPLES) or make_class; and CLASS "
         "OPERATIONS on classes that exist already (attrs.resolve_types; fields/fields_dict/has; "
         "Attribute.evolve; construct+validate+asdict) as history steps between and after definitions. Generated: ALL ordered pairs (A,B) of "
-        "bodies under one shared decorator object (quick: full catalogue for 2 decorators, a 16-body "
-        "core for 11, 6 sampled bodies for the rest; thorough: full catalogue for 12 decorators, 24 sampled bodies for the other 10), sampled "
+        "bodies under one shared decorator object (quick: 32 sampled bodies for define(), 13 sampled of a "
+        "20-body core for 11 decorators, 6 sampled bodies for the rest; thorough: full catalogue for 12 decorators, 24 sampled bodies for the other 10), sampled "
         "histories of 3-5 bodies under one decorator, shared `these` dict (one or two decorator "
         "objects, dict / attr.ib mutated in between), make_class with shared attrs dict holding the "
         "three hook names and shared class_body dict (mutated in between, mixed with attr.s(these=)), "
         "one attr.ib() object placed in several bodies under different decorators, shared metadata "
-        "dict and validator/converter/hook lists mutated between and after definitions, attrs.Converter "
+        "dict handed over as the dict itself / a MappingProxyType over it / another live Mapping view, "
+        "and validator/converter/hook lists, mutated (keys set and deleted, members appended and "
+        "popped) between and after definitions, attrs.Converter "
         "INSTANCES (all takes_self/takes_field variants) shared across definitions on differently "
         "named fields while the later class has a field of the earlier name with another converter "
         "(also through a shared attr.ib() and make_class), (A, class operation on A, B) for all pairs "
@@ -63,7 +67,8 @@ RULE = ("histories of operations on caller-owned objects: decorator objects (22 
         "fields: name, kw_only, default, init, type (string vs object, by name), validator and converter members by firing them, "
         "metadata keys, inherited; who provides __hash__/__eq__/__init__; __init__ signature and "
         "__init__.__annotations__ per parameter (cross-checked against inspect.signature); "
-        "pre/post-init hooks running; hash(inst) working; per field which converters produced the "
+        "pre/post-init hooks running; hash(inst) working; per field eq_key(1) == eq_key(1.0) and per "
+        "class the generated == on two instances built from 1 and from 1.0; per field which converters produced the "
         "value stored by __init__ (converters tag their result); what fires on `inst.f = v` per field or "
         "FrozenInstanceError) == fingerprint alone == model prediction, and container contents at "
         "the end == what the caller put there, and no Attribute OBJECT is shared between the "
@@ -140,6 +145,33 @@ def canon_ty(x):
 HOOKS = {n: _mk_hook(n) for n in ("h1", "h2")}
 HOOKS["convert"] = setters.convert
 HOOKS["validate"] = setters.validate
+
+
+def e1(a, b):
+    return a == b
+
+
+def e2(a, b):
+    return a == b
+
+
+EQFS = {"e1": e1, "e2": e2}     # module-level functions: the SAME objects in every cmp_using call
+
+
+class MetaView(__import__("collections").abc.Mapping):
+    """A live read-only Mapping view of a dict the caller keeps (not a dict, not a mappingproxy)."""
+
+    def __init__(self, d):
+        self._d = d
+
+    def __getitem__(self, k):
+        return self._d[k]
+
+    def __iter__(self):
+        return iter(self._d)
+
+    def __len__(self):
+        return len(self._d)
 
 
 def conv_tags(v):
@@ -272,6 +304,8 @@ class World:
             return table[a[1]]
         if a[0] == "lit":
             return [table[s] for s in a[1]]
+        if a[0] == "tup":
+            return tuple(table[s] for s in a[1])
         if a[0] == "conv":
             return self.convs[a[1]]      # the shared attrs.Converter instance itself
         if a[0] == "opt":
@@ -303,7 +337,16 @@ class World:
             kw["init"] = False
         m = a.get("m")
         if m is not None:
-            kw["metadata"] = self.metas[m[1]] if m[0] == "dict" else {k: 1 for k in m[1]}
+            kw["metadata"] = ({k: 1 for k in m[1]} if m[0] == "lit" else
+                              self.metas[m[1]] if m[0] == "dict" else
+                              types.MappingProxyType(self.metas[m[1]]) if m[0] == "proxy" else
+                              MetaView(self.metas[m[1]]))
+        ek = a.get("eqk")
+        if ek is not None:
+            ckw = {"eq": EQFS[ek[0]], "require_same_type": ek[1]}
+            if len(ek) > 2:
+                ckw["class_name"] = ek[2]
+            kw["eq"] = attr.cmp_using(**ckw)
         if a.get("field"):
             return attrs.field(**kw)
         return attr.ib(**kw)
@@ -404,6 +447,10 @@ def step(world, op):
         world.lists[op[1]].append((VALS | CONVS | HOOKS)[op[2]])
     elif k == "mset":
         world.metas[op[1]][op[2]] = 1
+    elif k == "mdel":
+        world.metas[op[1]].pop(op[2], None)
+    elif k == "lpop":
+        world.lists[op[1]].pop()
     elif k == "cavalidator":
         world.cas[op[1]].validator(VALS[op[2]])
     elif k == "dset":
@@ -529,7 +576,9 @@ def fingerprint(cls):
             else:
                 cs = _fired(lambda: a.converter(0))[0]
         flds.append({"n": a.name, "kw": bool(a.kw_only), "d": a.default is not attr.NOTHING,
-                     "init": bool(a.init), "ty": canon_ty(a.type), "v": vs, "c": cs,
+                     "init": bool(a.init), "ty": canon_ty(a.type),
+                     "mix": None if a.eq_key is None else bool(a.eq_key(1) == a.eq_key(1.0)),
+                     "v": vs, "c": cs,
                      "m": sorted(a.metadata),
                      "inh": bool(a.inherited)})
     fp["fields"] = flds
@@ -576,11 +625,23 @@ def fingerprint(cls):
         fp["ann"] = None
         fp["construct"] = {"pre": "pre" in log, "post": "post" in log, "own": "own_init" in log,
                            "exc": exc}
+    fp["mixed"] = None
     if inst is None:
         fp["hashes"] = None
         fp["assign"] = None
         fp["initconv"] = None
         return fp
+    if init_kind == "gen" and fp["eq"] == "gen":
+        # the generated __eq__ on two instances built from values of DIFFERENT types (1 and 1.0)
+        try:
+            pair = [cls(**{k: v for k in kw}) for v in (1, 1.0)]
+            for i in pair:
+                for a in attr.fields(cls):
+                    if not a.init and a.default is attr.NOTHING:
+                        object.__setattr__(i, a.name, 1)
+            fp["mixed"] = bool(pair[0] == pair[1])
+        except Exception as e:                     # noqa: BLE001
+            fp["mixed"] = type(e).__name__
     if init_kind == "gen":
         ic = []
         for a in attr.fields(cls):
@@ -681,7 +742,7 @@ def enc_seq(a):
         return "SNone"
     if a[0] == "one":
         return "(SOne %s)" % q(a[1])
-    if a[0] == "lit":
+    if a[0] in ("lit", "tup"):
         return "(SLit %s)" % lst(q(s) for s in a[1])
     if a[0] == "conv":
         return "(SConv %d)" % a[1]
@@ -713,13 +774,15 @@ def enc_meta(m):
         return "MANone"
     if m[0] == "lit":
         return "(MALit %s)" % lst(q(k) for k in m[1])
-    return "(MADict %d)" % m[1]
+    return "(MADict %d %s)" % (m[1], {"dict": "MKDict", "proxy": "MKProxy", "view": "MKView"}[m[0]])
 
 
 def enc_attrib(a):
-    return "(A %s %s %s %s %s %s %s)" % (
+    ek = a.get("eqk")
+    return "(A %s %s %s %s %s %s %s %s)" % (
         b(bool(a.get("d"))), enc_seq(a.get("v")), enc_seq(a.get("c")), enc_hookarg(a.get("h")),
-        b(bool(a.get("kw"))), b(a.get("init") is not False), enc_meta(a.get("m")))
+        b(bool(a.get("kw"))), b(a.get("init") is not False), enc_meta(a.get("m")),
+        "EKNone" if ek is None else "(EKCmp %s %s)" % (q(ek[0]), b(ek[1])))
 
 
 def enc_corehook(s):
@@ -825,6 +888,10 @@ def enc_op(op):
         return "(OListAppend %d %s)" % (op[1], q(op[2]))
     if k == "mset":
         return "(OMetaSet %d %s)" % (op[1], q(op[2]))
+    if k == "mdel":
+        return "(OMetaDel %d %s)" % (op[1], q(op[2]))
+    if k == "lpop":
+        return "(OListPop %d)" % op[1]
     if k == "cavalidator":
         return "(OCaValidator %d %s)" % (op[1], q(op[2]))
     if k == "dset":
@@ -850,10 +917,12 @@ KIND = {"absent": "KAbsent", "none": "KNone", "own": "KOwn", "gen": "KGen"}
 def enc_fp(fp):
     if fp["exc"] is not None:
         return "(FExc %s)" % EXC.get(fp["exc"], "EOther")
-    if fp["construct"]["exc"] is not None or fp["assign"] is None or isinstance(fp["sig"], str):
+    if (fp["construct"]["exc"] is not None or fp["assign"] is None or isinstance(fp["sig"], str)
+            or isinstance(fp["mixed"], str)):
         return "(FExc EOther)"      # something the model cannot express: forces a mismatch
-    flds = lst("(PF %s %s %s %s %s %s %s %s %s)" % (
-        q(f["n"]), b(f["kw"]), b(f["d"]), b(f["init"]), enc_oty(f["ty"]), lst(q(s) for s in f["v"]),
+    flds = lst("(PF %s %s %s %s %s %s %s %s %s %s)" % (
+        q(f["n"]), b(f["kw"]), b(f["d"]), b(f["init"]), enc_oty(f["ty"]), opt_b(f["mix"]),
+        lst(q(s) for s in f["v"]),
         lst(q(s) for s in f["c"]), lst(q(s) for s in f["m"]), b(f["inh"])) for f in fp["fields"])
     sig = "None" if fp["sig"] is None else "(Some %s)" % lst(
         "(%s, %s, %s)" % (q(n), b(kw), b(d)) for n, kw, d in fp["sig"])
@@ -866,9 +935,9 @@ def enc_fp(fp):
         for n, t in fp["initconv"])
     ann = "None" if fp["ann"] is None else "(Some %s)" % lst(
         "(%s, %s)" % (q(n), enc_oty(t)) for n, t in fp["ann"])
-    return "(FOk (FP %s %s %s %s %s %s %s %s %s %s %s %s))" % (
+    return "(FOk (FP %s %s %s %s %s %s %s %s %s %s %s %s %s))" % (
         flds, KIND[fp["hash"]], KIND[fp["eq"]], KIND[fp["init"]], sig, ann, b(c["pre"]), b(c["post"]),
-        b(c["own"]), opt_b(fp["hashes"]), ic, asg)
+        b(c["own"]), opt_b(fp["hashes"]), opt_b(fp["mixed"]), ic, asg)
 
 
 def mk_case(ops, scenario="?"):
@@ -964,6 +1033,13 @@ BODIES = {
     "bstr_sub": _body([_f("b", ty="s:int", d=True)], base="bstr"),
     "bstr_sub2": _body([_f("note", ty="s:Money", d=True), _f("c", ty="t:int", d=True)], base="bstr"),
     "bstrm_sub": _body([_f("b", ty="s:str", d=True, v=["one", "v1"])], base="bstrm"),
+    # eq keys from cmp_using with the SAME function objects, differing in require_same_type / name
+    "eq_same": _body([_f("x", eqk=["e1", True])]),
+    "eq_any": _body([_f("x", ann=True, eqk=["e1", False])]),
+    "eq_any_named": _body([_f("x", eqk=["e1", False, "K2"]), _f("y", d=True, eqk=["e2", True, "K2"])]),
+    "eq_same_conv": _body([_f("x", eqk=["e1", True], c=["one", "c1"]), _f("y", d=True, eqk=["e2", False])]),
+    "eq_same_fb": _body([_f("x", d=True, eqk=["e2", True])], base="frozen"),
+    "tuple_args": _body([_f("x", v=["tup", ["v1", "v2"]], c=["tup", ["c2", "c1"]], h=["tup", ["convert", "h1"]])]),
 }
 
 DECOS = {
@@ -993,7 +1069,7 @@ DECOS = {
 
 CORE_BODIES = ["plain_ib", "plain_ann", "mixed_unann", "own_hash", "own_eq", "own_setattr_v",
                "fb_conv", "fb_own_setattr", "hb_plain", "hb_val", "exc_base", "conv_val",
-               "field_hooks", "bad_order", "pre_post", "conv_opt1", "conv_list21", "bstr_sub"]
+               "field_hooks", "bad_order", "pre_post", "conv_opt1", "conv_list21", "bstr_sub", "eq_same", "eq_any"]
 CORE_DECOS = ["s_ad_frozen", "s_ad", "s", "define", "define_dict", "frozen", "mutable_hooks",
               "s_ad_frozen_cache", "s_kw", "define_noop", "s_ad_slots", "s_validate"]
 
@@ -1119,9 +1195,11 @@ def meta_list_cases(rng, thorough):
     decos = ["s", "define", "define_dict", "frozen", "mutable_hooks", "s_validate", "s_ad"]
     n = 600 if thorough else 120
     for _ in range(n):
-        ops = [["newlist", ["v1"]], ["newlist", ["c1"]], ["newlist", ["h1"]], ["newmeta", ["k1"]]]
+        ops = [["newlist", ["v1"]], ["newlist", ["c1"]], ["newlist", ["h1"]], ["newmeta", ["k1", "k0"]]]
+        lens = [1, 1, 1]
+        mkinds = ["dict", "proxy", "view"]
         # a shared attr.ib() built from the shared containers
-        ops.append(["attrib", {"d": True, "v": ["list", 0], "c": ["list", 1], "m": ["dict", 0]}])
+        ops.append(["attrib", {"d": True, "v": ["list", 0], "c": ["list", 1], "m": [rng.choice(mkinds), 0]}])
         nd = rng.choice([1, 2])
         for _i in range(nd):
             r = rng.random()
@@ -1145,18 +1223,30 @@ def meta_list_cases(rng, thorough):
                     a["c"] = ["list", 1]
                 if rng.random() < 0.3:
                     a["h"] = ["list", 2]
-                if rng.random() < 0.6:
-                    a["m"] = ["dict", 0]
+                if rng.random() < 0.7:
+                    a["m"] = [rng.choice(mkinds), 0]
                 fs.append(_f(name, ann=True, **a))
             return _body(fs, base=rng.choice(["obj", "obj", "hooked", "frozen"]))
         muts = [["lappend", 0, "v2"], ["lappend", 1, "c2"], ["lappend", 2, "validate"],
-                ["lappend", 2, "h2"], ["mset", 0, "k2"], ["mset", 0, "k3"], ["cavalidator", 0, "v3"]]
+                ["lappend", 2, "h2"], ["mset", 0, "k2"], ["mset", 0, "k3"], ["cavalidator", 0, "v3"],
+                ["mdel", 0, "k1"], ["mdel", 0, "k0"], ["mset", 0, "k1"],
+                ["lpop", 0], ["lpop", 1], ["lpop", 2]]
+
+        def mutate(k):
+            for m in rng.sample(muts, k):
+                if m[0] == "lpop":
+                    if lens[m[1]] < 2:
+                        continue            # never hand an EMPTY validator/converter list to attr.ib
+                    lens[m[1]] -= 1
+                elif m[0] == "lappend":
+                    lens[m[1]] += 1
+                ops.append(m)
         for i in range(rng.choice([2, 2, 3])):
             if i:
-                ops += rng.sample(muts, rng.choice([0, 1, 1, 2]))
+                mutate(rng.choice([0, 1, 1, 2, 3]))
             ops.append(["apply", rng.randrange(nd), body()])
-        if rng.random() < 0.5:
-            ops += rng.sample(muts, 1)       # a mutation AFTER the last definition
+        if rng.random() < 0.6:
+            mutate(rng.choice([1, 2]))       # mutations AFTER the last definition
         out.append(mk_case(ops, scenario="shared-metadata-and-lists"))
     return out
 
@@ -1247,6 +1337,47 @@ def class_op_cases(rng, thorough):
     return out
 
 
+def cmp_using_cases(rng, thorough):
+    """eq keys built by cmp_using() calls with the SAME function objects (and class_name) that differ
+    only in require_same_type, spread over the classes of a history; every class is re-observed at
+    the end (== on values of different types)."""
+    out = []
+    decos = ["s", "define", "frozen", "s_ad_frozen", "define_dict", "s_unsafe_hash", "s_eq_false",
+             "mutable_hooks", "s_kw"]
+    eq_bodies = ["eq_same", "eq_any", "eq_any_named", "eq_same_conv", "eq_same_fb"]
+    for d in decos:
+        hists = list(itertools.permutations(eq_bodies, 2)) + [(x, x) for x in eq_bodies]
+        if thorough:
+            hists += list(itertools.permutations(eq_bodies, 3))
+        else:
+            hists += rng.sample(list(itertools.permutations(eq_bodies, 3)), 6)
+        for h in hists:
+            out.append(shared_deco_case(d, list(h)))
+            out[-1].sig["scenario"] = "cmp_using"
+    n = 800 if thorough else 80
+    for _ in range(n):
+        nd = rng.choice([1, 2])
+        ops = [["deco"] + list(DECOS[rng.choice(decos)]) for _i in range(nd)]
+        ops.append(["attrib", {"d": True, "eqk": ["e1", rng.random() < 0.5]}])     # a shared attr.ib()
+        for _i in range(rng.choice([2, 3, 4])):
+            fs = []
+            for nm in rng.sample(["x", "y", "z"], rng.choice([1, 2])):
+                r = rng.random()
+                if r < 0.15:
+                    fs.append(_f(nm, e="shared", sid=0))
+                    continue
+                a = {"d": True}
+                if r < 0.8:
+                    a["eqk"] = [rng.choice(["e1", "e1", "e2"]), rng.random() < 0.5] + \
+                               ([rng.choice(["K2", "Comparable"])] if rng.random() < 0.3 else [])
+                if rng.random() < 0.25:
+                    a["c"] = ["one", rng.choice(["c1", "c2"])]
+                fs.append(_f(nm, **a))
+            ops.append(["apply", rng.randrange(nd), _body(fs, base=rng.choice(["obj", "obj", "frozen", "plain"]))])
+        out.append(mk_case(ops, scenario="cmp_using"))
+    return out
+
+
 _PAIR_MEMO = {}
 
 
@@ -1258,7 +1389,7 @@ def generate(tier, seed):
     names = list(BODIES)
     # 1. one shared decorator object, all ordered pairs
     for d in DECOS:
-        pool = names if (thorough or d == "define") else CORE_BODIES
+        pool = names if thorough else (rng.sample(names, 32) if d == "define" else CORE_BODIES)
         if thorough and d not in CORE_DECOS:
             pool = rng.sample(names, 24)
         if not thorough and d in CORE_DECOS and d != "define":
@@ -1281,6 +1412,7 @@ def generate(tier, seed):
     cases += meta_list_cases(rng, thorough)
     cases += shared_converter_cases(rng, thorough)
     cases += class_op_cases(rng, thorough)
+    cases += cmp_using_cases(rng, thorough)
     return cases
 
 
